@@ -1,3 +1,111 @@
+(* C10 -- property theorems about the model of the (repaired) KDMixCollator.
+   All hold for every batch size, image size, mode combination, probability split and every draw
+   sequence satisfying the generator's contract (Spec.trace_ok) and every non-negative half box size. *)
+From Coq Require Import ZArith QArith List Bool Lia Lqa Permutation.
+Import ListNotations.
 From KD Require Import C10.Model C10.Spec C10.Proofs.
-Theorem tmp_c10 : True. Proof. exact tmp. Qed.
-Print Assumptions tmp_c10.
+Open Scope Z_scope.
+
+(* image and label of sample i are mixed with the same partner (no contract on the draws needed) *)
+Theorem partner_shared : forall c hv tr r tr',
+  collate c hv tr = Some (r, tr') ->
+  forall ls, labs r = Some ls ->
+  forall i, (i < bsz c)%nat -> partner_of (nth i (imgs r) Keep) = Some (fst (nth i ls (0%nat, 0%Q))).
+Proof. exact partner_shared_l. Qed.
+Print Assumptions partner_shared.
+
+(* retained pixel fraction of the image (counted pixel by pixel) = label weight = lambda reported in ctx *)
+Theorem weight_shared : forall c hv tr r tr',
+  cfg_ok c -> trace_ok tr -> halves_ok hv -> collate c hv tr = Some (r, tr') ->
+  forall i, (i < bsz c)%nat ->
+    (retained_fraction (img_h c) (img_w c) (nth i (imgs r) Keep) == lam_of r i)%Q /\
+    (forall ls, labs r = Some ls -> (snd (nth i ls (0%nat, 0%Q)) == lam_of r i)%Q).
+Proof. exact weight_shared_l. Qed.
+Print Assumptions weight_shared.
+
+(* every pasted box lies inside the image: 0 <= top <= bot <= h, 0 <= left <= right <= w *)
+Theorem bbox_in_bounds : forall c hv tr r tr',
+  trace_ok tr -> halves_ok hv -> collate c hv tr = Some (r, tr') ->
+  forall i p b, (i < bsz c)%nat -> nth i (imgs r) Keep = Cut p b -> box_in_bounds (img_h c) (img_w c) b.
+Proof. exact bbox_in_bounds_l. Qed.
+Print Assumptions bbox_in_bounds.
+
+(* the code's  1 - (bot-top)*(right-left)/(h*w)  is the fraction of pixels not overwritten *)
+Theorem lambda_adjusted_is_area_fraction : forall h w p b,
+  0 < h -> 0 < w -> box_in_bounds h w b ->
+  (lamb_adjusted h w b == retained_fraction h w (Cut p b))%Q.
+Proof. exact lambda_adjusted_is_area_fraction_l. Qed.
+Print Assumptions lambda_adjusted_is_area_fraction.
+
+(* the weight reported in the context is a weight: inside [0,1] *)
+Theorem lambda_in_unit_interval : forall c hv tr r tr',
+  cfg_ok c -> trace_ok tr -> halves_ok hv -> collate c hv tr = Some (r, tr') ->
+  forall i, (i < bsz c)%nat -> (0 <= lam_of r i)%Q /\ (lam_of r i <= 1)%Q.
+Proof. exact lambda_in_unit_l. Qed.
+Print Assumptions lambda_in_unit_interval.
+
+(* mixed rows of a matrix of probability vectors (one-hot rows in particular) are probability vectors *)
+Theorem rows_sum_to_one : forall c hv tr r tr' Y,
+  cfg_ok c -> trace_ok tr -> halves_ok hv -> collate c hv tr = Some (r, tr') ->
+  label_matrix_ok (bsz c) Y ->
+  forall ls, labs r = Some ls -> forall i, (i < bsz c)%nat ->
+    let row := render_label Y i (nth i ls (0%nat, 0%Q)) in
+    (qsum row == 1)%Q /\ Forall (fun x => (0 <= x)%Q) row.
+Proof. exact rows_sum_to_one_l. Qed.
+Print Assumptions rows_sum_to_one.
+
+(* the partner is the one the shuffle mode prescribes: roll (i-1) mod B, flip B-1-i, random perm[i] for the
+   ONE permutation drawn in this call (a permutation of 0..B-1); B = 1: the sample itself *)
+Theorem p_follows_mode : forall c hv tr r tr',
+  trace_ok tr -> collate c hv tr = Some (r, tr') ->
+  exists perm, (shuf c = Random -> bsz c <> 1%nat -> In (DPerm perm) tr /\ Permutation perm (seq 0 (bsz c))) /\
+    forall i, (i < bsz c)%nat ->
+      partner_of (nth i (imgs r) Keep) = Some (mode_partner (shuf c) (bsz c) perm i) /\
+      (mode_partner (shuf c) (bsz c) perm i < bsz c)%nat.
+Proof. exact p_follows_mode_l. Qed.
+Print Assumptions p_follows_mode.
+
+(* every item of the batch tuple whose name is neither x nor class is returned unchanged, the tuple keeps its length
+   (single-item mode 'x': the batch is the image tensor itself, Model.set_item returns the value) *)
+Theorem other_items_untouched : forall c hv batch tr ob r tr',
+  collate_batch c hv batch tr = Some ((ob, r), tr') ->
+  (length (tokens c) > 1)%nat ->
+  length ob = length batch /\
+  forall j t, nth_error (tokens c) j = Some t -> t <> TX -> t <> TClass -> nth_error ob j = nth_error batch j.
+Proof. exact other_items_untouched_l. Qed.
+Print Assumptions other_items_untouched.
+
+(* ---------- non-vacuity: the premises are satisfiable and the interesting branches are reached ---------- *)
+Definition c_ex : cfg := {| bsz := 3; img_h := 4; img_w := 6; mixup_p := 1 # 2; cutmix_p := 1 # 2; total_p := 1;
+  mixup_alpha := Some (4 # 5); cutmix_alpha := Some 1%Q; apply_mode := PerSample; lamb_mode := PerSample;
+  shuf := Random; tokens := [TIndex; TX; TClass] |}.
+Definition tr_ex : trace :=
+  [DUnits [1 # 3; 0; 9 # 10]%Q; DUnits [1 # 4; 3 # 4; 0]%Q; DBetas (4 # 5) [1 # 2; 1 # 3; 1]%Q;
+   DBetas 1 [1 # 5; 1 # 2; 0]%Q; DInts 4 [0; 3; 2]; DInts 6 [5; 0; 3]; DPerm [1; 0; 2]%nat].
+Definition hv_ex : list (Z * Z) := [(1, 2); (1, 2); (2, 3)].
+
+Example premises_satisfiable : cfg_ok c_ex /\ trace_ok tr_ex /\ halves_ok hv_ex.
+Proof.
+  split. { unfold cfg_ok; simpl. repeat split; try lia; try (unfold Qle; simpl; lia); reflexivity. }
+  split.
+  - unfold tr_ex. repeat constructor; simpl; try lia; try (unfold Qle, Qlt; simpl; lia).
+  - repeat constructor; simpl; lia.
+Qed.
+
+Example collate_example :
+  exists r, collate c_ex hv_ex tr_ex = Some (r, []) /\
+    imgs r = [Cut 1 (0, 3, 1, 6); Mix 0 (1 # 3); Cut 2 (0, 0, 4, 6)] /\
+    labs r = Some [(1%nat, 1 - 3 / 24); (0%nat, 1 # 3); (2%nat, 1 - 24 / 24)]%Q.
+Proof. eexists. split; [vm_compute; reflexivity|]. split; reflexivity. Qed.
+
+Example collate_batch_example :
+  exists r tr', collate_batch c_ex hv_ex [IOther [7; 8; 9]; IOther []; IOther []] tr_ex = Some ((
+     [IOther [7; 8; 9]; IX [Cut 1 (0, 3, 1, 6); Mix 0 (1 # 3); Cut 2 (0, 0, 4, 6)];
+      IY [(1%nat, 21 # 24); (0%nat, 1 # 3); (2%nat, 0 # 24)]], r), tr').
+Proof. eexists. eexists. vm_compute. reflexivity. Qed.
+
+Example label_matrix_example : label_matrix_ok 3 [[1; 0; 0]; [0; 1; 0]; [0; 0; 1]]%Q.
+Proof.
+  exists 3%nat. intros k Hk. destruct k as [|[|[|k]]]; try lia; simpl;
+    (split; [reflexivity|split; [reflexivity|repeat constructor; unfold Qle; simpl; lia]]).
+Qed.
